@@ -67,7 +67,8 @@ def gen_section(rng, max_image, allow_ignored=True):
     sec = {"tt": tt, "image": {"len": n, "fill": "rand", "tail0": 0, "s": rng.getrandbits(32)},
            "ls": rng.choice([1, 16, 32, 64, 128, 250, "mixed", "mixed"]), "lseed": rng.getrandbits(16),
            "groups": rng.choice(["one", "one", "split"]),
-           "select": None, "select_if": None, "fwver": None, "crc": None, "reboot": False}
+           "select": None, "select_if": None, "fwver": None, "crc": None, "reboot": False,
+           "hexstyle": rng.choice([0, 0, 0, 1, 2, 3, 4, 5])}
     if info is None:
         return sec
     ctype = info[0]
@@ -196,6 +197,21 @@ def section_lines(sec):
     return lines
 
 
+def _hexstyle(b, style):
+    """spellings of a byte string that the library's hex reader accepts (it drops white space and - . / :)"""
+    if style == 1:
+        return b.hex(" ")
+    if style == 2:
+        return b.hex().upper()
+    if style == 3:
+        return b.hex("-").upper()
+    if style == 4:
+        return b.hex(" ").upper().replace(" ", "  ")
+    if style == 5:
+        return b.hex(":")
+    return b.hex(" ").upper()
+
+
 def render_items(spec):
     """list of (kind, section index or None, text line without newline, line record or None)"""
     items = []
@@ -212,13 +228,13 @@ def render_items(spec):
             vd = "*"
         else:
             v = bytes.fromhex(desc)
-            vd = (b"\x01\x00" + bytes([len(v)]) + v).hex(" ").upper()
+            vd = _hexstyle(b"\x01\x00" + bytes([len(v)]) + v, sec.get("hexstyle", 0))
         items.append(("instr", si, "#>CHECK_FWVER VERSIONDESC=" + vd, None))
         if sec.get("fw"):
             items.append(("instr", si, "##Firmware: %04d %s %s" % (sec["fw"]["id"], sec["fw"].get("name", "BALTECHFW"),
                                                                   sec["fw"]["ver"]), None))
         if sec["select"]:
-            items.append(("instr", si, "#>SELECT FILTER=" + bytes.fromhex(sec["select"]).hex(" ").upper(), None))
+            items.append(("instr", si, "#>SELECT FILTER=" + _hexstyle(bytes.fromhex(sec["select"]), sec.get("hexstyle", 0)), None))
         if sec["select_if"]:
             items.append(("instr", si, "#>SELECT_IF PROTOCOL=" + sec["select_if"], None))
         lines = section_lines(sec)
